@@ -124,6 +124,9 @@ def menagerie(ps, rnd):
         fu = absig.make_func([dict(p, an=(7 if p['an'] else 0)) for p in ps], name='f', future=True, extra_globals={'A7': None}, ret='Missing')
         del fu.__globals__['A7']
         objs += [('up-unresolvable', signatures.signature(fu), True), ('up-unresolvable-again', signatures.signature(fu), True)]
+        # the same text where it CAN be evaluated: compared with the unresolvable one in both orders
+        fr = absig.make_func([dict(p, an=(7 if p['an'] else 0)) for p in ps], name='f', future=True, extra_globals={'Missing': None}, ret='Missing')
+        objs += [('up-resolvable-same-text', signatures.signature(fr), True)]
     except Exception:  # noqa
         pass
     params = list(up.parameters.values())
@@ -207,12 +210,23 @@ def events_for(tid, ps, rnd):
         q0 = p0.replace()
         q1 = p0.replace(name=p0.name + 'q')
         q2 = p0.replace(sources=[], source_depths={}, upgraded_annotation=newann, function=None)
+        # every override ALONE: it is taken over and nothing else moves
+        f2 = absig.make_func(ps, name='f')
+        q3 = p0.replace(source_depths={f2: 5})
+        q4 = p0.replace(sources=[f2])
+        q5 = p0.replace(upgraded_annotation=newann)
+        q6 = p0.replace(function=None)
         yield {'tid': tid + '/replace-param', 'op': 'replace', 'type_kept': all(type(q) is signatures.UpgradedParameter for q in (q0, q1, q2)),
                'kept': {'sources': q1.sources == p0.sources and q0.sources == p0.sources, 'source_depths': q1.source_depths == p0.source_depths,
                         'upgraded_annotation': q1.upgraded_annotation is p0.upgraded_annotation and q0.upgraded_annotation is p0.upgraded_annotation,
-                        'function': q1._function is p0._function, 'rest': (q1.kind, q1.default, q1.annotation) == (p0.kind, p0.default, p0.annotation)},
+                        'function': q1._function is p0._function, 'rest': (q1.kind, q1.default, q1.annotation) == (p0.kind, p0.default, p0.annotation),
+                        'sources_when_only_depths_overridden': q3.sources == p0.sources, 'depths_when_only_sources_overridden': q4.source_depths == p0.source_depths,
+                        'provenance_when_only_annotation_overridden': (q5.sources, q5.source_depths) == (p0.sources, p0.source_depths) and q5._function is p0._function,
+                        'all_when_only_function_overridden': (q6.sources, q6.source_depths) == (p0.sources, p0.source_depths) and q6.upgraded_annotation is p0.upgraded_annotation},
                'taken': {'sources': q2.sources == [], 'source_depths': q2.source_depths == {}, 'upgraded_annotation': q2.upgraded_annotation is newann,
-                         'function': q2._function is None, 'name': q1.name == p0.name + 'q'},
+                         'function': q2._function is None, 'name': q1.name == p0.name + 'q',
+                         'source_depths_alone': q3.source_depths == {f2: 5}, 'sources_alone': q4.sources == [f2], 'upgraded_annotation_alone': q5.upgraded_annotation is newann,
+                         'function_alone': q6._function is None},
                'case': {'ps': ps}}
 
 
